@@ -32,6 +32,8 @@ fn main() {
   let thorough = args.iter().any(|a| a == "--thorough");
   // quiet panics: they are caught and classified per case
   if std::env::var("VERIF_DEBUG").is_err() { std::panic::set_hook(Box::new(|_| {})); }
+  // the in-flight record is only meaningful with one worker, or in the (single-worker) scheduler harness
+  if let Some(p) = arg(&args, "--inflight") { if threads == 1 || id == "C18" { *core::INFLIGHT.lock().unwrap() = Some(p); } }
   let cfg = RunCfg { seed, cases, threads, driver, thorough, max_shrink: 4 };
   let t0 = std::time::Instant::now();
   if id == "dump" {
@@ -102,9 +104,17 @@ fn main() {
     }
     if !violated.is_empty() { j["oracle_failures"] = json!(j["oracle_failures"].as_u64().unwrap_or(0) + violated.len() as u64); j["unknown_oracle_failures"] = json!(j["unknown_oracle_failures"].as_u64().unwrap_or(0) + violated.len() as u64); }
     j["extra"] = json!({ "unsafe_sites_reached": reached, "unsafe_sites_violated": violated });
+    // the schedules of C18, with stream callbacks that are schedule points and keep what they borrow
+    let nsched = std::env::var("VERIF_C19_SCHEDULES").ok().and_then(|s| s.parse().ok()).unwrap_or(if thorough { 3000 } else { 160 });
+    let r3 = conc::run(seed, nsched, &cfg.driver, thorough, "C19");
+    for k in ["cases", "oracle_failures", "unknown_oracle_failures", "corr_failures", "driver_lines"] { j[k] = json!(j[k].as_u64().unwrap_or(0) + r3[k].as_u64().unwrap_or(0)); }
+    j["distinct_nontrivial"] = json!(j["distinct_nontrivial"].as_u64().unwrap_or(0) + r3["distinct_nontrivial"].as_u64().unwrap_or(0));
+    for f in r3["failures"].as_array().unwrap() { j["failures"].as_array_mut().unwrap().push(f.clone()); }
+    for (k, v) in r3["distribution"].as_object().unwrap() { j["distribution"][format!("conc:{k}")] = v.clone(); }
+    j["extra"]["concurrent"] = r3["extra"].clone();
     j
   } else if id == "C18" {
-    conc::run(seed, cases, &cfg.driver, thorough)
+    conc::run(seed, cases, &cfg.driver, thorough, "C18")
   } else if id == "C15" {
     simple::run_simple("C15", &jsonprop::gen, &jsonprop::corpus(), &cfg)
   } else if id == "C16" {
